@@ -506,4 +506,355 @@ theorem star_api (cls : Cls) (kvs : List (Str × Val)) (name f : Str) (lc : Cls)
     · intro rl
       exact star_find_implicit cls kvs name f lc rs rl hname hf hl hrs fuel hfuel
 
+/-! ### string facts for the condition tokenizer -/
+
+theorem startsWith_mem : ∀ (s p : Str), startsWith s p = true → ∀ x ∈ p, x ∈ s
+  | _, [], _, x, hx => by cases hx
+  | [], _ :: _, h, _, _ => by simp [startsWith] at h
+  | c :: s, q :: ps, h, x, hx => by
+    simp only [startsWith, Bool.and_eq_true, beq_iff_eq] at h
+    simp only [List.mem_cons] at hx ⊢
+    rcases hx with rfl | hx
+    · left; exact h.1.symm
+    · right; exact startsWith_mem s ps h.2 x hx
+
+theorem isInfix_mem : ∀ (p s : Str), p ≠ [] → isInfix p s = true → ∀ x ∈ p, x ∈ s
+  | p, [], hp, h, _, _ => by simp [isInfix, isEmpty_false_of_ne hp] at h
+  | p, c :: s, hp, h, x, hx => by
+    simp only [isInfix, Bool.or_eq_true] at h
+    rcases h with h | h
+    · exact startsWith_mem _ _ h x hx
+    · exact List.mem_cons_of_mem _ (isInfix_mem p s hp h x hx)
+
+/-- a pattern containing a character that does not occur in `s` is not a substring of `s` -/
+theorem isInfix_false_of_not_mem (p s : Str) (x : Char) (hx : x ∈ p) (hs : x ∉ s) : isInfix p s = false := by
+  cases h : isInfix p s with
+  | false => rfl
+  | true => exact absurd (isInfix_mem p s (by intro hp; subst hp; cases hx) h x hx) hs
+
+theorem isInfix_skip (d0 : Char) (d' k t : Str) (h : ∀ c ∈ k, c ≠ d0) :
+    isInfix (d0 :: d') (k ++ t) = isInfix (d0 :: d') t := by
+  induction k with
+  | nil => rfl
+  | cons c k ih =>
+    have hc : c ≠ d0 := h c (by simp)
+    rw [List.cons_append, isInfix, ih (fun x hx => h x (by simp [hx]))]
+    simp [startsWith, hc]
+
+theorem isInfix_append_self (p k t : Str) (hp : p ≠ []) : isInfix p (k ++ p ++ t) = true := by
+  induction k with
+  | nil =>
+    cases p with
+    | nil => exact absurd rfl hp
+    | cons c p' =>
+      have := startsWith_self_append (c :: p') t
+      simp only [List.nil_append, List.cons_append, isInfix, Bool.or_eq_true]
+      left; simpa using this
+  | cons c k ih =>
+    simp only [List.cons_append, isInfix, Bool.or_eq_true]
+    right; simpa using ih
+
+theorem startsWith_single_false (s : Str) (c : Char) (h : c ∉ s) : startsWith s [c] = false := by
+  cases hs : startsWith s [c] with
+  | false => rfl
+  | true => exact absurd (startsWith_mem s [c] hs c (by simp)) h
+
+theorem contains_true_of_mem (s : Str) (c : Char) (h : c ∈ s) : s.contains c = true := by
+  simp [h]
+
+/-- `"contains"` cannot start in `k` followed by an operator character unless `k` itself starts with it -/
+theorem startsWith_lower_append (k rest p : Str) (o : Char) (hp : ∀ c ∈ p, c ≠ toLowerAscii o) :
+    startsWith (lower (k ++ o :: rest)) p = true → startsWith (lower k) p = true := by
+  induction k generalizing p with
+  | nil =>
+    cases p with
+    | nil => intro _; rfl
+    | cons c p' =>
+      have hc := hp c (by simp)
+      simp [Py.lower, startsWith, Ne.symm hc]
+  | cons x k ih =>
+    cases p with
+    | nil => intro _; simp [Py.lower, startsWith]
+    | cons c p' =>
+      simp only [Py.lower, List.cons_append, List.map_cons, startsWith, Bool.and_eq_true, beq_iff_eq]
+      intro ⟨h1, h2⟩
+      exact ⟨h1, ih p' (fun y hy => hp y (by simp [hy])) h2⟩
+
+/-! ### `split_name_index` on the predicate steps -/
+
+/-- the comparison operators of the property: as written (`=`, `==`, `!=`, `~`, `~~`) and as the
+tokenizer normalises them -/
+inductive OpSpell : Str → Str → Prop
+  | eq1 : OpSpell ['='] ['=', '=']
+  | eq2 : OpSpell ['=', '='] ['=', '=']
+  | ne : OpSpell ['!', '='] ['!', '=']
+  | in1 : OpSpell ['~'] ['~', '~']
+  | in2 : OpSpell ['~', '~'] ['~', '~']
+
+/-- a field name that can stand on the left of a condition: plain characters, no `!`, not starting
+with `contains` (any letter case) -/
+structure CondKey (k : Str) : Prop where
+  ne : k ≠ []
+  chars : ∀ c ∈ k, plainChar c = true ∧ c ≠ '!'
+  notContains : startsWith (lower k) sContains = false
+
+/-- a literal value: plain characters (no blanks, quotes, brackets, `/`, `=`, `~`, `*`, `?`), no `%`
+(url-unquoting), not the bool spellings `true()` / `false()`; it may be empty -/
+structure PlainLit (v : Str) : Prop where
+  chars : ∀ c ∈ v, plainChar c = true ∧ c ≠ '%'
+  notTrue : lower v ≠ sTrue
+  notFalse : lower v ≠ sFalse
+
+/-- the literal as written in the step: bare, or in single or double quotes -/
+inductive LitSpell : Str → Str → Prop
+  | bare (v : Str) : LitSpell v v
+  | sq (v : Str) : LitSpell ('\'' :: v ++ ['\'']) v
+  | dq (v : Str) : LitSpell ('"' :: v ++ ['"']) v
+
+theorem plainChar_ne2 {c : Char} (h : plainChar c = true) : c ≠ '=' ∧ c ≠ '~' ∧ c ≠ '"' ∧ c ≠ '\'' := by
+  simp only [plainChar, Bool.not_eq_true', Bool.or_eq_false_iff, decide_eq_false_iff_not] at h
+  obtain ⟨⟨⟨⟨⟨⟨⟨⟨⟨_, _⟩, _⟩, _⟩, _⟩, h6⟩, h7⟩, h8⟩, h9⟩, _⟩ := h
+  exact ⟨h6, h7, h8, h9⟩
+
+theorem CondKey.no (k : Str) (h : CondKey k) : ∀ c ∈ k, c ≠ '=' ∧ c ≠ '~' ∧ c ≠ '!' ∧ c ≠ '[' ∧ isPySpace c = false :=
+  fun c hc => ⟨(plainChar_ne2 (h.chars c hc).1).1, (plainChar_ne2 (h.chars c hc).1).2.1, (h.chars c hc).2,
+    (plainChar_ne (h.chars c hc).1).2.1, (plainChar_ne (h.chars c hc).1).2.2.2.2⟩
+
+theorem LitSpell.no {vq v : Str} (h : LitSpell vq v) (hv : PlainLit v) :
+    ∀ c ∈ vq, c ≠ '=' ∧ c ≠ '~' ∧ c ≠ '[' ∧ c ≠ ']' ∧ c ≠ '/' ∧ isPySpace c = false := by
+  have hp : ∀ c ∈ v, c ≠ '=' ∧ c ≠ '~' ∧ c ≠ '[' ∧ c ≠ ']' ∧ c ≠ '/' ∧ isPySpace c = false := fun c hc =>
+    ⟨(plainChar_ne2 (hv.chars c hc).1).1, (plainChar_ne2 (hv.chars c hc).1).2.1, (plainChar_ne (hv.chars c hc).1).2.1,
+      (plainChar_ne (hv.chars c hc).1).2.2.1, (plainChar_ne (hv.chars c hc).1).1, (plainChar_ne (hv.chars c hc).1).2.2.2.2⟩
+  cases h with
+  | bare => exact hp
+  | sq =>
+    intro c hc
+    simp only [List.mem_cons, List.mem_append, List.not_mem_nil, or_false] at hc
+    rcases hc with (rfl | hc) | rfl
+    · decide
+    · exact hp c hc
+    · decide
+  | dq =>
+    intro c hc
+    simp only [List.mem_cons, List.mem_append, List.not_mem_nil, or_false] at hc
+    rcases hc with (rfl | hc) | rfl
+    · decide
+    · exact hp c hc
+    · decide
+
+theorem OpSpell.cases' {opx op : Str} (h : OpSpell opx op) :
+    opx ≠ [] ∧ (∀ c ∈ opx, c = '=' ∨ c = '!' ∨ c = '~') ∧
+    (if opx = ['='] then ['=', '='] else if opx = ['~'] then ['~', '~'] else opx) = op := by
+  cases h <;> simp
+
+/-- which delimiter the tokenizer picks: the operator as written -/
+theorem firstDelim_spell (k opx op vq : Str) (hk : ∀ c ∈ k, c ≠ '=' ∧ c ≠ '~' ∧ c ≠ '!')
+    (hv : ∀ c ∈ vq, c ≠ '=' ∧ c ≠ '~') (h : OpSpell opx op) :
+    firstDelim (k ++ opx ++ vq) condDelims = some opx := by
+  have hkeq : ∀ c ∈ k, c ≠ '=' := fun c hc => (hk c hc).1
+  have hktl : ∀ c ∈ k, c ≠ '~' := fun c hc => (hk c hc).2.1
+  have hkbg : ∀ c ∈ k, c ≠ '!' := fun c hc => (hk c hc).2.2
+  have hveq : '=' ∉ vq := fun hc => (hv _ hc).1 rfl
+  have hvtl : '~' ∉ vq := fun hc => (hv _ hc).2 rfl
+  have nEqEq : isInfix ['=', '='] vq = false := isInfix_false_of_not_mem _ _ '=' (by simp) hveq
+  have nNeq : isInfix ['!', '='] vq = false := isInfix_false_of_not_mem _ _ '=' (by simp) hveq
+  have nTT : isInfix ['~', '~'] vq = false := isInfix_false_of_not_mem _ _ '~' (by simp) hvtl
+  have nBT : isInfix ['!', '~'] vq = false := isInfix_false_of_not_mem _ _ '~' (by simp) hvtl
+  have sEq : startsWith vq ['='] = false := startsWith_single_false vq '=' hveq
+  have sTl : startsWith vq ['~'] = false := startsWith_single_false vq '~' hvtl
+  cases h with
+  | eq1 =>
+    have h1 : isInfix ['=', '='] (k ++ ['='] ++ vq) = false := by
+      rw [List.append_assoc, isInfix_skip '=' ['='] k _ hkeq]
+      simp [isInfix, startsWith, sEq, nEqEq]
+    have h2 : isInfix ['!', '='] (k ++ ['='] ++ vq) = false := by
+      rw [List.append_assoc, isInfix_skip '!' ['='] k _ hkbg]
+      simp [isInfix, startsWith, nNeq]
+    have hnt : '~' ∉ k ++ ['='] ++ vq := by
+      simp only [List.mem_append, List.mem_singleton, not_or]
+      exact ⟨⟨fun hc => hktl _ hc rfl, by decide⟩, hvtl⟩
+    have h3 : isInfix ['~', '~'] (k ++ ['='] ++ vq) = false := isInfix_false_of_not_mem _ _ '~' (by simp) hnt
+    have h4 : isInfix ['!', '~'] (k ++ ['='] ++ vq) = false := isInfix_false_of_not_mem _ _ '~' (by simp) hnt
+    have h5 : isInfix ['~'] (k ++ ['='] ++ vq) = false := isInfix_false_of_not_mem _ _ '~' (by simp) hnt
+    have h6 : isInfix ['='] (k ++ ['='] ++ vq) = true := isInfix_append_self ['='] k vq (by simp)
+    simp only [firstDelim, condDelims, h1, h2, h3, h4, h5, h6, Bool.false_eq_true, if_false, if_true]
+  | eq2 =>
+    have h1 : isInfix ['=', '='] (k ++ ['=', '='] ++ vq) = true := isInfix_append_self _ k vq (by simp)
+    simp only [firstDelim, condDelims, h1, if_true]
+  | ne =>
+    have h1 : isInfix ['=', '='] (k ++ ['!', '='] ++ vq) = false := by
+      rw [List.append_assoc, isInfix_skip '=' ['='] k _ hkeq]
+      simp [isInfix, startsWith, sEq, nEqEq]
+    have h2 : isInfix ['!', '='] (k ++ ['!', '='] ++ vq) = true := isInfix_append_self _ k vq (by simp)
+    simp only [firstDelim, condDelims, h1, h2, Bool.false_eq_true, if_false, if_true]
+  | in1 =>
+    have hne : '=' ∉ k ++ ['~'] ++ vq := by
+      simp only [List.mem_append, List.mem_singleton, not_or]
+      exact ⟨⟨fun hc => hkeq _ hc rfl, by decide⟩, hveq⟩
+    have h1 : isInfix ['=', '='] (k ++ ['~'] ++ vq) = false := isInfix_false_of_not_mem _ _ '=' (by simp) hne
+    have h2 : isInfix ['!', '='] (k ++ ['~'] ++ vq) = false := isInfix_false_of_not_mem _ _ '=' (by simp) hne
+    have h3 : isInfix ['~', '~'] (k ++ ['~'] ++ vq) = false := by
+      rw [List.append_assoc, isInfix_skip '~' ['~'] k _ hktl]
+      simp [isInfix, startsWith, sTl, nTT]
+    have h4 : isInfix ['!', '~'] (k ++ ['~'] ++ vq) = false := by
+      rw [List.append_assoc, isInfix_skip '!' ['~'] k _ hkbg]
+      simp [isInfix, startsWith, nBT]
+    have h5 : isInfix ['~'] (k ++ ['~'] ++ vq) = true := isInfix_append_self _ k vq (by simp)
+    simp only [firstDelim, condDelims, h1, h2, h3, h4, h5, Bool.false_eq_true, if_false, if_true]
+  | in2 =>
+    have hne : '=' ∉ k ++ ['~', '~'] ++ vq := by
+      simp only [List.mem_append, List.mem_cons, List.not_mem_nil, or_false, not_or]
+      exact ⟨⟨fun hc => hkeq _ hc rfl, by decide, by decide⟩, hveq⟩
+    have h1 : isInfix ['=', '='] (k ++ ['~', '~'] ++ vq) = false := isInfix_false_of_not_mem _ _ '=' (by simp) hne
+    have h2 : isInfix ['!', '='] (k ++ ['~', '~'] ++ vq) = false := isInfix_false_of_not_mem _ _ '=' (by simp) hne
+    have h3 : isInfix ['~', '~'] (k ++ ['~', '~'] ++ vq) = true := isInfix_append_self _ k vq (by simp)
+    simp only [firstDelim, condDelims, h1, h2, h3, Bool.false_eq_true, if_false, if_true]
+
+/-- the split at the operator gives the field name and the written literal -/
+theorem splitOnce_spell (k opx op vq : Str) (hk : ∀ c ∈ k, c ≠ '=' ∧ c ≠ '~' ∧ c ≠ '!') (h : OpSpell opx op) :
+    splitOnce opx (k ++ opx ++ vq) = some (k, vq) := by
+  obtain ⟨hne, hch, _⟩ := h.cases'
+  unfold splitOnce
+  have := split1_found opx k vq [] ((k ++ opx ++ vq).length + 1) hne
+    (by
+      intro pre suf hps hsne
+      cases suf with
+      | nil => exact absurd rfl hsne
+      | cons c suf =>
+        have hc : c ∈ k := by rw [hps]; simp
+        have hck := hk c hc
+        cases opx with
+        | nil => exact absurd rfl hne
+        | cons o opx' =>
+          have ho := hch o (by simp)
+          have : c ≠ o := by
+            rcases ho with rfl | rfl | rfl
+            · exact hck.1
+            · exact hck.2.2
+            · exact hck.2.1
+          simp [startsWith, this])
+    (by simp)
+  simpa using this
+
+theorem stripWs_of_all (s : Str) (h : ∀ c ∈ s, isPySpace c = false) : stripWs s = s :=
+  stripWs_eq_self s (fun c hc => h c (List.mem_of_mem_head? hc)) (fun c hc => h c (List.mem_of_getLast? hc))
+
+theorem lower_cons (c : Char) (s : Str) : lower (c :: s) = toLowerAscii c :: lower s := rfl
+
+/-- the value part of a condition: bare or quoted literal → the text `v` -/
+theorem parseCond_spell (k opx op vq v : Str) (hk : CondKey k) (hop : OpSpell opx op) (hl : LitSpell vq v)
+    (hv : PlainLit v) : parseCond (k ++ opx ++ vq) = .ok (.cond k op (.str v)) := by
+  have hkn := CondKey.no k hk
+  have hvn := hl.no hv
+  have hk3 : ∀ c ∈ k, c ≠ '=' ∧ c ≠ '~' ∧ c ≠ '!' := fun c hc => ⟨(hkn c hc).1, (hkn c hc).2.1, (hkn c hc).2.2.1⟩
+  have hv2 : ∀ c ∈ vq, c ≠ '=' ∧ c ≠ '~' := fun c hc => ⟨(hvn c hc).1, (hvn c hc).2.1⟩
+  have hcont : ((k ++ opx ++ vq).contains '=' || (k ++ opx ++ vq).contains '~') = true := by
+    cases hop <;> simp
+  have hks : stripWs k = k := stripWs_of_all k (fun c hc => (hkn c hc).2.2.2.2)
+  have hvs : stripWs vq = vq := stripWs_of_all vq (fun c hc => (hvn c hc).2.2.2.2.2)
+  obtain ⟨_, _, hcanon⟩ := hop.cases'
+  unfold parseCond
+  simp only [hcont, if_true, firstDelim_spell k opx op vq hk3 hv2 hop, splitOnce_spell k opx op vq hk3 hop, hks, hvs,
+    hcanon]
+  cases hl with
+  | bare =>
+    have hq1 : startsWith vq ['"'] = false := by
+      cases vq with
+      | nil => rfl
+      | cons c v' =>
+        have := (plainChar_ne2 (hv.chars c (by simp)).1).2.2.1
+        simp [startsWith, this]
+    have hq2 : startsWith vq ['\''] = false := by
+      cases vq with
+      | nil => rfl
+      | cons c v' =>
+        have := (plainChar_ne2 (hv.chars c (by simp)).1).2.2.2
+        simp [startsWith, this]
+    simp only [hv.notTrue, hv.notFalse, if_false, hq1, hq2, Bool.false_and, Bool.or_self, Bool.false_eq_true]
+  | sq =>
+    have h1 : lower ('\'' :: v ++ ['\'']) ≠ sTrue := by
+      rw [List.cons_append, lower_cons]; intro h; injection h with h _; revert h; decide
+    have h2 : lower ('\'' :: v ++ ['\'']) ≠ sFalse := by
+      rw [List.cons_append, lower_cons]; intro h; injection h with h _; revert h; decide
+    have h3 : startsWith ('\'' :: v ++ ['\'']) ['\''] = true := by simp [startsWith, startsWith_nil]
+    have h4 : endsWith ('\'' :: v ++ ['\'']) ['\''] = true := by
+      rw [show '\'' :: v ++ ['\''] = ('\'' :: v) ++ ['\''] from rfl]; exact endsWith_snoc _ _
+    have h5 : (('\'' :: v ++ ['\'']).drop 1).dropLast = v := by simp
+    have h6 : hasPercent v = false := contains_false_of_forall v '%' (fun c hc => (hv.chars c hc).2)
+    simp only [h1, h2, if_false, h3, h4, Bool.and_self, Bool.or_true, if_true, h5, h6, Bool.false_eq_true]
+  | dq =>
+    have h1 : lower ('"' :: v ++ ['"']) ≠ sTrue := by
+      rw [List.cons_append, lower_cons]; intro h; injection h with h _; revert h; decide
+    have h2 : lower ('"' :: v ++ ['"']) ≠ sFalse := by
+      rw [List.cons_append, lower_cons]; intro h; injection h with h _; revert h; decide
+    have h3 : startsWith ('"' :: v ++ ['"']) ['"'] = true := by simp [startsWith, startsWith_nil]
+    have h4 : endsWith ('"' :: v ++ ['"']) ['"'] = true := by
+      rw [show '"' :: v ++ ['"'] = ('"' :: v) ++ ['"'] from rfl]; exact endsWith_snoc _ _
+    have h5 : (('"' :: v ++ ['"']).drop 1).dropLast = v := by simp
+    have h6 : hasPercent v = false := contains_false_of_forall v '%' (fun c hc => (hv.chars c hc).2)
+    simp only [h1, h2, if_false, h3, h4, Bool.and_self, Bool.true_or, if_true, h5, h6, Bool.false_eq_true]
+
+theorem cond_notContains (k opx op vq : Str) (hk : CondKey k) (hop : OpSpell opx op) :
+    startsWith (lower (k ++ opx ++ vq)) sContains = false := by
+  cases h : startsWith (lower (k ++ opx ++ vq)) sContains with
+  | false => rfl
+  | true =>
+    exfalso
+    have hnc := hk.notContains
+    obtain ⟨o, opx', rfl⟩ : ∃ o opx', opx = o :: opx' := by cases hop <;> exact ⟨_, _, rfl⟩
+    have ho : ∀ c ∈ sContains, c ≠ toLowerAscii o := by
+      cases hop <;> decide
+    have := startsWith_lower_append k (opx' ++ vq) sContains o ho (by simpa [List.append_assoc] using h)
+    rw [this] at hnc; cases hnc
+
+/-- **`split_name_index` on a predicate step** `nm[k op v]` (`nm` empty or a plain name; the operator as
+written or normalised; the literal bare or quoted) -/
+theorem split_cond (nm k opx op vq v : Str) (hnm : nm = [] ∨ PlainKey nm) (hk : CondKey k) (hop : OpSpell opx op)
+    (hl : LitSpell vq v) (hv : PlainLit v) :
+    splitNameIndex (nm ++ bracket (k ++ opx ++ vq)) = .ok (nm, .cond k op (.str v)) := by
+  have hkn := CondKey.no k hk
+  have hvn := hl.no hv
+  obtain ⟨hopne, hopch, _⟩ := hop.cases'
+  have hnmb : ∀ c ∈ nm, c ≠ '[' := by
+    rcases hnm with h | h
+    · subst h; simp
+    · exact fun c hc => (plainChar_ne (h.chars c hc)).2.1
+  have hnms : stripWs nm = nm := by
+    rcases hnm with h | h
+    · subst h; rfl
+    · exact h.stripWs
+  have hesp : ∀ c ∈ k ++ opx ++ vq, isPySpace c = false := by
+    intro c hc
+    simp only [List.mem_append] at hc
+    rcases hc with (hc | hc) | hc
+    · exact (hkn c hc).2.2.2.2
+    · rcases hopch c hc with rfl | rfl | rfl <;> decide
+    · exact (hvn c hc).2.2.2.2.2
+  have hes : stripWs (k ++ opx ++ vq) = k ++ opx ++ vq := stripWs_of_all _ hesp
+  have hene : (k ++ opx ++ vq).isEmpty = false := by
+    apply isEmpty_false_of_ne; intro h; simp at h; exact hk.ne h.1
+  have hform : nm ++ bracket (k ++ opx ++ vq) = (nm ++ '[' :: (k ++ opx ++ vq)) ++ [']'] := by simp [bracket]
+  have hcont : (nm ++ bracket (k ++ opx ++ vq)).contains '[' = true := by simp [bracket]
+  have hends : endsWith (nm ++ bracket (k ++ opx ++ vq)) [']'] = true := by rw [hform]; exact endsWith_snoc _ _
+  have hdrop : (nm ++ bracket (k ++ opx ++ vq)).dropLast = nm ++ '[' :: (k ++ opx ++ vq) := by
+    rw [hform, List.dropLast_concat]
+  unfold splitNameIndex
+  simp only [hcont, hends, Bool.and_self, if_true, hdrop, splitOnce_bracket nm _ hnmb, hnms, hes, hene,
+    Bool.false_eq_true, if_false, cond_notContains k opx op vq hk hop, Bool.false_and,
+    parseCond_spell k opx op vq v hk hop hl hv]
+  rfl
+
+theorem condKey_text : CondKey sTextFn where
+  ne := by decide
+  chars := by decide
+  notContains := by decide
+
+theorem opSpell_canon {opx op : Str} (h : OpSpell opx op) : OpSpell op op := by
+  cases h
+  · exact .eq2
+  · exact .eq2
+  · exact .ne
+  · exact .in2
+  · exact .in2
+
 end N0.XPath
